@@ -32,6 +32,18 @@ CLAIMED = {
         "the backend's fatal paths cannot fire when counts fit the counts word. Acceptance of whole file sets (graph passes on acyclic inputs, symbol lookup across the include closure) is tied, not proved: valid generated file sets over the full grammar "
         "are run through the real binary for 5-6 backends under random flag sets, as generated, with declarations permuted, and with all declarations merged into the main file; every variant must exit 0 with output, and the model must agree.",
    note=TB + " Completeness of the graph passes is sampled, not proved."),
+ "C12": dict(engine="lean+facts+cli", technique="Lean 4 proof (invariant over the depth-first loader, DFS acyclicity theorem) + differential correspondence on random include graphs with file-system oracle tables",
+   text="Lean 4: resolve returns the first match in search order for bare names (with the none-iff characterisation) and resolves paths with a directory part relative to the includer only; "
+        "loadAll_ok: whenever the loader succeeds the resolved include graph it built is acyclic (for every hash iteration order), no file was loaded twice and the main file is loaded; a detected cycle is never dropped. "
+        "Tie: random include graphs over up to 5 directories (same name in several directories, bare/./../nested spellings, self-includes and cycles of any length, unresolvable names, symlinked directories, permuted and re-spelled -I lists) "
+        "materialised on disk; the model's two file-system oracle tables are read from the real tree; verdict, load set and origin of every visible declaration of the real pipeline are compared with the model and with an independent evaluation of the resolution rule.",
+   note=TB + " canonicalize()/exists() are modelled by oracle tables read from the real file system; termination of the model's loader is by fuel |files|+2 (sufficiency of that fuel is checked by correspondence, not proved); include strings that are absolute paths are not modelled."),
+ "C13": dict(engine="lean+facts+cli", technique="Lean 4 proof (order-independence of the struct verifier over dependency-first orders; DFS theorem for every iteration order) + repeated/relocated/re-spelled runs of the real binary",
+   text="Lean 4: structVerifier_order_independent / _verdict_independent: the struct verifier's verdict and computed sizes do not depend on which dependency-first order the hash-table iteration produced; "
+        "toposort_ok_acyclic holds for every list (iteration) order; the model's compile takes file identities and oracle tables only, so no path reaches its result. "
+        "Tie: every accepted generated file set (plus graphs sized around hash-table growth boundaries) is compiled 8 times per backend in fresh processes (fresh SipHash keys): relative from the root (3x), absolute from /, from a relocated copy, "
+        "with redundant components, through a symlink, relative from the parent; names and bytes of all outputs are compared; probe facts at two locations are compared with each other and with the model.",
+   note=TB + " Determinism of emission order inside the code generators (iteration over source-ordered node lists) is observed by byte comparison, not proved."),
  "C07": dict(engine="lean+tables+facts+cli", technique=T_IND,
    text="Lean 4 theorems (unbounded in hierarchy depth, members per level and interleaving) that the numbering walk hands out op-codes 0,1,2,... in ancestor-first declaration order, unique, <= 0x3FFF, and rejects chains with more than 0x4000 methods; tied to the code by kernel-checked regenerated tables (boundary 16383/16384/16385) and by sampled correspondence of the real pipeline's MIR facts with the model; the emitted numbers of C, C++, Rust and Java stubs/skeletons (incl. dispatch tables of derived interfaces) are extracted from the real compiler's output and compared with an oracle computed from the declarations; the 0x4000/0x4001 boundary is run through the real binary.",
    note=TB),
